@@ -11,6 +11,8 @@
      strict_brackets Valid refuses "[host]" when host has no colon          (F24)
      len253          validHostname keeps the 253 limit for a trailing dot   (N1)
      ascii_fold      validHostname lower-cases ASCII only                   (N2)
+     fix_n3          getListenAddress rule 2 returns an error when the host-only
+                     listen address joined with the port is not a host:port  (N3)
    [pinned] is the code as it is; [documented] is the code as documented. *)
 From Coq Require Import String Ascii NArith ZArith Bool List.
 From Onet Require Import Base.HexC20 Addr.GoStr Addr.GoNet.
@@ -21,11 +23,12 @@ Record variant := {
   fix_f23 : bool;
   strict_brackets : bool;
   len253 : bool;
-  ascii_fold : bool
+  ascii_fold : bool;
+  fix_n3 : bool
 }.
-Definition pinned : variant := Build_variant false false false false.
-Definition documented : variant := Build_variant true true true true.
-Definition with_f23 (b : bool) : variant := Build_variant b false false false.
+Definition pinned : variant := Build_variant false false false false false.
+Definition documented : variant := Build_variant true true true true true.
+Definition with_f23 (b : bool) : variant := Build_variant b false false false false.
 
 Definition sep : bytes := B "://".
 Definition t_tcp : bytes := B "tcp".
@@ -238,7 +241,15 @@ Definition get_listen_address (v : variant) (addr listen : bytes) : res bytes :=
   | Err => Err
   | Ok (_, p) =>
       let (s0, srest) := split_byte c_colon listen in
-      if is_nil srest && negb (is_nil p) then Ok (s0 ++ c_colon :: p) else
+      if is_nil srest && negb (is_nil p) then
+        (if fix_n3 v then
+           match split_host_port (s0 ++ c_colon :: p) with
+           | Crash => Crash
+           | Err => Err
+           | Ok _ => Ok (s0 ++ c_colon :: p)
+           end
+         else Ok (s0 ++ c_colon :: p))
+      else
       match split_host_port listen with
       | Crash => Crash
       | Err => Err
